@@ -1,4 +1,6 @@
 """C07 — ordered index reads return the correctly sorted, ranged page."""
+import re
+
 from . import common as K
 
 META = {
@@ -7,20 +9,27 @@ META = {
                   "histories) + go/ast fact tie + model/implementation correspondence through the real gateway + independent Spec oracle"),
     "text": ("Lean theorems Hv.C07.bounds_correct (both binary searches of findTimeRangeBounds return exactly the index interval of "
              "[from,to) on every list sorted asc/desc), page_correct (GetManyFromOrderPosition = page of the window on a sorted list), "
-             "beacon_sorted_inv / holds_of_good (for every history of sets, updates, deletes and reads the index lists stay a sorted "
+             "beacon_sorted_inv / holds_of_good (for every history of sets, updates, deletes, increments, patches, expired-patches, "
+             "shifts, reloads and reads the index lists stay a sorted "
              "permutation of exactly the records carrying the attribute, when every change of a sort attribute re-files the record, the "
              "comparator matches the requested type and value indexes are per type), closed counterexamples for the current facts "
              "(update moving UpdatedAt / CreatedAt, value update, insert into a built non-int64 value index, mixed-type swamp), and "
-             "holds_partial (key and expiration-time indexes are always correct under the current facts); classify_sound ties the "
+             "holds_partial (key and time indexes are always correct under the current facts), value_single_type / "
+             "holds_current_single_type (value indexes are read correctly in every swamp whose records all have one content type "
+             "and whose value reads ask for that type), shift_correct (what ShiftMatching hands "
+             "out is the first N of the index in the window), closed witnesses for an unguarded expiry re-file and a partial "
+             "ReindexExpiration; classify_sound ties the "
              "decision to facts extracted from beacon.go / swamp.go / treasure.go."),
     "note": ("Trusted: Lean kernel (propext, Classical.choice, Quot.sound); extract/c07.go; harness/c07.go; Go's sort.Slice sorts "
              "whenever its less function is a strict weak order; records with equal sort values are compared as sets (ties free). "
              "Values are modelled by their rank inside their type; timestamps by integer nanoseconds. Histories are Set (insert / "
              "in-place update), Delete, IncrementInt64 (in-place value and expiry change), ShiftExpiredTreasures (walks and empties the "
-             "expiration index), close+reload, and reads; PatchTreasures meta, ReindexExpiration and CloneAndDeleteMatching are not "
-             "driven (the latter goes through GetBeacon, whose extracted facts getBeaconServesAllValueTypes=no / "
-             "getBeaconBuildsRequestedType=no say it serves only int64/float64/string value types and always builds them as int64 — "
-             "C11's subject)."),
+             "expiration index), PatchTreasures with a PatchMeta that sets / clears the expiry (the IsExpirationTimeChanged branch of "
+             "SaveFunction), PatchExpiredTreasures (select, patch+save each, ReindexExpiration), ShiftMatchingTreasures on the key and "
+             "time indexes (CloneAndDeleteMatching), close+reload, and reads. ShiftMatching on VALUE indexes is not driven: it goes "
+             "through GetBeacon, whose extracted facts getBeaconServesAllValueTypes=no / getBeaconBuildsRequestedType=no say it serves "
+             "only int64/float64/string value types and always builds them as int64 — C11's subject. A ShiftMatching count on a time "
+             "index is always 0 (=all in the window): a count that cuts a run of equal timestamps leaves the choice to the sort."),
     "design_ref": "§8 C07",
 }
 
@@ -29,6 +38,9 @@ FINDINGS = {
     "C07-created-update-stale": "an update that moves CreatedAt (or first sets it) is not re-filed in the built creation-time index: the read is unsorted / misses the record",
     "C07-value-update-stale": "an update that changes the value of an indexed record leaves the built value index unsorted until the next insert",
     "C07-value-insert-wrong-comparator": "inserting into an already built non-int64 value index re-sorts with the int64 comparator, which fails: the new record stays appended at the end",
+    "C07-first-readers-race": "buildBeacon raises `initialized` before it fills and sorts the slice: the second of two concurrent first readers of an index is answered from the empty slice",
+    "C07-expire-cleared-refiled": "the expiration branch of SaveFunction re-files a record whose expiry was just cleared: it stays in the built expiration index under key 0",
+    "C07-patch-expired-partial-reindex": "PatchExpired hands only part of its selection back to the ascending expiration index: a patched, still expired record loaded from disk drops out of it",
     "C07-value-index-mixed-types": "the single shared value index holds records of every content type: a value read returns records of other types / in the order of whichever type built it",
 }
 
@@ -71,6 +83,21 @@ class Shadow:
             r["t"] = "i64"
             if e:
                 r["expire"] = e
+
+    def patch(self, k, e):
+        """PatchTreasures / PatchExpired on one record: only a msgpack body is patched (its counter
+        moves); the meta sets the expiry, clears it, or is absent.  Returns the documented status."""
+        r = self.recs.get(k)
+        if r is None or r["t"] == "void":
+            return "notfound"
+        if r["t"] != "bytes":
+            return "mismatch"
+        r["v"] += 1
+        if e == "clear":
+            r["expire"] = 0
+        elif e != "-" and int(e) != 0:
+            r["expire"] = int(e)
+        return "patched"
 
     def attr(self, idx, k):
         """sort attribute of key k under index idx, or None when the record does not carry it"""
@@ -150,7 +177,10 @@ class Hist:
         self.time_updates = {"created": set(), "updated": set(), "expire": set()}  # keys whose timestamp an update set
         self.value_updates = set()      # keys whose value an update set
         self.insert_after_value_read = False
+        self.race_line = False               # the line being judged is the second reader of a `race`
         self.value_read_over_mixed = False   # a value read happened while a record of another type was alive
+        self.i64_build_failed = False        # …an int64 one: SortByValueInt64 fails and leaves the slices filled, unflagged
+        self.patchexp = False                # an expired-patch ran (this line included)
 
     def on_set(self, sh, k, c, u, e):
         if k in sh.recs:
@@ -172,23 +202,26 @@ def symptom(fid, q, keys, sh, hist):
     live = all(k in sh.recs for k in keys)
     carriers = all(sh.attr(idx, k) is not None for k in keys)
     if fid == "C07-value-index-mixed-types":
+        # The one shared value pair holds EVERY live record exactly once (cold build without a type filter;
+        # every add / content change drops the pair, deletes prune it), in the order of whichever
+        # comparator sorted it.  So whatever this finding does to a page, the page is a window of the
+        # right size over ALL live records; and one of its three causes is on record in this case.
+        # On a single-type swamp read as that type only, the page is correct (Hv.C07.holds_current_single_type).
         if idx not in VALUE_TYPES:
             return False
-        if any(k in sh.recs and sh.attr(idx, k) is None for k in keys):
-            return True                 # a record of another content type in the page
-        if any(r["t"] != idx for r in sh.recs.values()) and nodup and live:
-            # records of other types occupy positions of the index: the page is a window of the
-            # right size over ALL live records, only carriers happen to be in it
-            n_all = max(0, len(sh.recs) - q[2])
-            if len(keys) == (min(q[3], n_all) if q[3] else n_all):
-                return True
-        if hist.value_read_over_mixed and all(k in hist.ever_keys for k in keys):
-            # built while another type was alive: a non-strict-weak-order sort whose order survives later
-            # deletes, or (int64 request) a failed build whose debris keeps deleted keys
+        if hist.i64_build_failed and all(k in hist.ever_keys for k in keys):
+            # the debris of a failed int64 build earlier in this case (an int64 read over a swamp that held
+            # another type): slices that were filled but left unflagged are filled again by the next build and
+            # are not pruned by deletes — duplicates and deleted keys, but never a key this case did not write
             return True
-        # or: the one shared value index was built by a read of another value type (its order, or the
-        # debris of a failed int64 build, is what this read gets) — only keys this case ever wrote
-        return bool(hist.value_types_read - {idx}) and all(k in hist.ever_keys for k in keys)
+        if not (nodup and live):
+            return False
+        n_all = max(0, len(sh.recs) - q[2])
+        if len(keys) != (min(q[3], n_all) if q[3] else n_all):
+            return False
+        other_alive = any(r["t"] != idx for r in sh.recs.values())    # records of another type fill positions
+        other_read = bool(hist.value_types_read - {idx})               # sorted by another type's comparator
+        return other_alive or other_read or hist.value_read_over_mixed  # …or by a comparator that met another type
     clean = nodup and live and carriers     # a stale index: right kind of records, wrong order / some missing
     if fid == "C07-updated-update-stale":
         return idx == "updated" and clean and bool(hist.time_updates["updated"])
@@ -196,6 +229,12 @@ def symptom(fid, q, keys, sh, hist):
         return idx == "created" and clean and bool(hist.time_updates["created"])
     if fid == "C07-value-update-stale":
         return idx in VALUE_TYPES and clean and bool(hist.value_updates)
+    if fid == "C07-expire-cleared-refiled":
+        return idx == "expire" and nodup and live and any(sh.recs[k]["expire"] == 0 for k in keys)
+    if fid == "C07-patch-expired-partial-reindex":
+        return idx == "expire" and clean and hist.patchexp
+    if fid == "C07-first-readers-race":
+        return keys == [] and hist.race_line   # the second reader of a `race` line got nothing
     if fid == "C07-value-insert-wrong-comparator":
         return idx in VALUE_TYPES and idx != "i64" and clean and hist.insert_after_value_read
     return False
@@ -218,6 +257,7 @@ def judge(c):
     mism = []
     n = max(len(c.ops), len(c.impl), len(c.model))
     pending_vt, pending_mixed, pending_shift = None, False, False
+    pending_pexp, pending_del = None, None
     for i in range(n):
         op = c.ops[i] if i < len(c.ops) else ""
         impl = c.impl[i] if i < len(c.impl) else "<missing>"
@@ -228,9 +268,19 @@ def judge(c):
             for k in [k for k, r in sh.recs.items() if r["expire"] != 0]:
                 sh.delete(k)            # the previous line shifted every record with an expiry out of the swamp
             pending_shift = False
+        if pending_pexp is not None:
+            for k in [k for k, r in sh.recs.items() if r["expire"] != 0]:
+                hist.on_set(sh, k, 0, 0, 1)
+                sh.patch(k, pending_pexp)   # the previous line patched every record that had an expiry (all lie in the past)
+            pending_pexp = None
+        if pending_del is not None:
+            for k in pending_del:
+                sh.delete(k)            # the previous line shifted these records out (ties: the implementation's choice)
+            pending_del = None
         if pending_vt:
             hist.value_types_read.add(pending_vt)   # the previous line's value read, now part of the history
             hist.value_read_over_mixed = hist.value_read_over_mixed or pending_mixed
+            hist.i64_build_failed = hist.i64_build_failed or (pending_mixed and pending_vt == "i64")
             pending_vt = None
         if f[0] == "case":
             sh = Shadow()
@@ -240,13 +290,85 @@ def judge(c):
             sh.set(f[1], f[2], int(f[3]), int(f[4]), int(f[5]), int(f[6]))
         elif f[0] == "del" and len(f) == 2:
             sh.delete(f[1])
+        elif f[0] == "reload":
+            hist.i64_build_failed = False   # every index is gone with the swamp object
+            hist.value_types_read = set()
+            hist.value_read_over_mixed = False
         elif f[0] == "inc" and len(f) == 4 and int(f[2]) != 0:
             hist.on_set(sh, f[1], 0, 0, int(f[3]))
             sh.inc(f[1], int(f[2]), int(f[3]))
+        elif f[0] == "patch" and len(f) == 3:
+            hist.on_set(sh, f[1], 0, 0, 1)
+            want = sh.patch(f[1], f[2])
+            stats["patches"] = stats.get("patches", 0) + 1
+            if impl != want:
+                unexplained.append((i, "`%s` answered `%s`, by the documented semantics it is `%s`" % (op, impl, want)))
+        if f[0] == "race" and len(f) == 3:
+            # two first readers: both replies are full reads of the index, judged separately
+            q = (f[1], f[2] == "asc", 0, 0, None, None)
+            stats["queries"] += 1
+            stats["race_lines"] = stats.get("race_lines", 0) + 1
+            mi = re.match(r"^r2=(.*) r1=(.*)$", impl)
+            mm = re.match(r"^r2=(.*) r1=(.*)$", model)
+            if f[1] in VALUE_TYPES:
+                pending_vt = f[1]
+                pending_mixed = any(r["t"] != f[1] for r in sh.recs.values())
+            if mi is None or (model != "nd" and mm is None):
+                if impl != model:
+                    mism.append(i)
+                continue
+            if mi.group(1).startswith("err"):
+                if impl != model or sh.recs:
+                    mism.append(i)
+                continue
+            pages = [[k for k in mi.group(j).split(",") if k] for j in (1, 2)]
+            bads = [page_verdict(sh, q, pg) for pg in pages]
+            expl = []
+            for j, (pg, bad) in enumerate(zip(pages, bads)):
+                if bad:
+                    stats["impl_bad_pages"] += 1
+                    hist.race_line = j == 0
+                    ex = [x for x in flags if symptom(x, q, pg, sh, hist)]
+                    hist.race_line = False
+                    for x in ex:
+                        stats["bad_pages_by_finding"][x] = stats["bad_pages_by_finding"].get(x, 0) + 1
+                    if not ex:
+                        unexplained.append((i, "%s reader: %s" % (("second", "first")[j], bad)))
+                    expl += ex
+            if model == "nd":
+                stats["nd"] += 1
+                c.model[i] = impl
+            else:
+                mpages = [[k for k in mm.group(j).split(",") if k] for j in (1, 2)]
+                if [canon(sh, q, pg) for pg in pages] != [canon(sh, q, pg) for pg in mpages]:
+                    mism.append(i)
+                else:
+                    c.model[i] = impl
+                    if flags and not any(bads):
+                        unexplained.append((i, "model flags %s but the Spec oracle accepts both replies" % flags))
+            c.flags[i] = sorted(set(expl))
+            continue
         shift = f[0] == "shiftexp"
         pending_shift = shift
         if shift:
             f = ["q", "expire", "asc", "0", "0", "-", "-", "u"]   # judged as a full read of the expiration index
+        elif f[0] == "patchexp" and len(f) == 2:
+            pending_pexp = f[1]
+            hist.patchexp = True
+            stats["patchexp"] = stats.get("patchexp", 0) + 1
+            f = ["q", "expire", "asc", "0", "0", "-", "-", "u"]   # the claim order is the ascending expiration index
+            if not sh.recs and impl == "r ":
+                if impl != model:
+                    mism.append(i)
+                continue                # no swamp: nothing claimed
+        elif f[0] == "shiftmatch" and len(f) == 6:
+            stats["shiftmatch"] = stats.get("shiftmatch", 0) + 1
+            pending_del = [k for k in impl[2:].split(",") if k] if impl.startswith("r ") else []
+            f = ["q", f[1], f[2], "0", f[3], f[4], f[5], "u"]    # the first N of the index inside the window
+            if not sh.recs and impl == "r ":
+                if impl != model:
+                    mism.append(i)
+                continue
         if f[0] != "q" or len(f) != 8:
             if impl != model:
                 mism.append(i)
@@ -333,11 +455,38 @@ def spec_violated(rep):
             sh.delete(f[1])
         elif f[0] == "inc" and len(f) == 4:
             sh.inc(f[1], int(f[2]), int(f[3]))
+        elif f[0] == "race" and len(f) == 3 and i == last:
+            m = re.match(r"^r2=(.*) r1=(.*)$", impl)
+            if m and not m.group(1).startswith("err"):
+                for j, who in ((1, "second"), (2, "first")):
+                    bad = page_verdict(sh, (f[1], f[2] == "asc", 0, 0, None, None), [k for k in m.group(j).split(",") if k])
+                    if bad:
+                        return "`%s`: the %s of two concurrent first readers was answered `%s`: %s" % (op, who, m.group(j), bad)
         elif f[0] == "shiftexp":
             if i == last:
                 f = ["q", "expire", "asc", "0", "0", "-", "-", "u"]
             else:
                 for k in [k for k, r in sh.recs.items() if r["expire"] != 0]:
+                    sh.delete(k)
+        elif f[0] == "patch" and len(f) == 3:
+            want = sh.patch(f[1], f[2])
+            if i == last and impl != want:
+                return "`%s` answered `%s`, by the documented semantics it is `%s`" % (op, impl, want)
+        elif f[0] == "patchexp" and len(f) == 2:
+            if i == last:
+                if not sh.recs and impl == "r ":
+                    return None
+                f = ["q", "expire", "asc", "0", "0", "-", "-", "u"]
+            else:
+                for k in [k for k, r in sh.recs.items() if r["expire"] != 0]:
+                    sh.patch(k, f[1])
+        elif f[0] == "shiftmatch" and len(f) == 6:
+            if i == last:
+                if not sh.recs and impl == "r ":
+                    return None
+                f = ["q", f[1], f[2], "0", f[3], f[4], f[5], "u"]
+            else:
+                for k in [k for k in impl[2:].split(",") if k]:
                     sh.delete(k)
         if f[0] == "q" and len(f) == 8 and i == last:
             if impl.startswith("r "):
@@ -376,7 +525,7 @@ def run(ctx):
         rep.update({"correspondence": "C07", "oracle": why})
         ctx.violation("implementation violates the property (Spec oracle, not explained by any listed finding): " + why, rep, tag="oracle")
     if ctx.thorough:
-        ok, out = K.leanchecker(ctx, ["Hv.Props.C07", "Hv.Data.BeaconLemmas", "Hv.Data.Beacon"])
+        ok, out = K.leanchecker(ctx, ["Hv.Props.C07", "Hv.Data.BeaconSingle", "Hv.Data.BeaconLemmas", "Hv.Data.Beacon"])
         ctx.cov["leanchecker"] = "ok" if ok else out[-500:]
         if not ok:
             ctx.violation("leanchecker rejected the compiled proofs", {"log": out[-2000:]}, tag="leanchecker", found_input=False)
@@ -385,10 +534,12 @@ def run(ctx):
         samples.append({"ops": [c.ops[i] for i in cs][:14], "impl": [c.impl[i] for i in cs if i < len(c.impl)][:14]})
     return K.finish(
         ctx, "proof",
-        rule=("histories = 11 corpus cases (the proved witnesses, sub-second windows, increment/reload/shift) + random cases of 6..40 ops "
-              "(..76 thorough) over 3..10 keys, every third on a persistent swamp: set (new key or update; 13 content types; "
-              "CreatedAt/UpdatedAt/ExpiredAt in nanoseconds, each present or absent), delete, IncrementInt64, ShiftExpiredTreasures, "
-              "close+reload, and index reads "
+        rule=("histories = 15 corpus cases (the proved witnesses, sub-second windows, increment/reload/shift, patch meta, expired-patch "
+              "after reload, shift-matching) + random cases of 6..40 ops "
+              "(..76 thorough) over 3..10 keys, every third on a persistent swamp: set (new key or update; 14 content types incl. "
+              "msgpack bodies; CreatedAt/UpdatedAt/ExpiredAt in nanoseconds, each present or absent), delete, IncrementInt64, "
+              "ShiftExpiredTreasures, PatchTreasures (+meta: expiry set / cleared / none), PatchExpiredTreasures (same), "
+              "ShiftMatchingTreasures (key index: first N; time index: window), close+reload, and index reads "
               "(15 index types x asc/desc x from 0..5 x limit 0..6 x optional fromTime/toTime, unary and streamed) interleaved so that "
               "indexes are built early and then maintained; every case ends with full reads of its focused indexes. A case is "
               "non-trivial when it has >= 3 ops; distinct = distinct op texts. Each read is compared with the Lean model up to ties "
